@@ -54,12 +54,12 @@ theorem text_table_eq (T : Table) (h : ∀ r ∈ T, RowFits r) (tn : Py.Str) :
     rw [hcount]
     rfl
 
-/-- …hence the text side's `pdb2sql.__init__` (table name a plain word after the clean-up) on the exported lines of fitting rows IS the hand model's side with the concrete round trip -/
-theorem text_init_eq_model (T : Table) (h : ∀ r ∈ T, RowFits r) (tn : Py.Str) (hname : MicroSql.isName (Rt.cleanName tn) = true) :
+/-- …hence the text side's `pdb2sql.__init__` (after its CREATE TABLE statement) on the exported lines of fitting rows IS the hand model's side with the concrete round trip -/
+theorem text_init_eq_model (T : Table) (h : ∀ r ∈ T, RowFits r) (tn : Py.Str) :
     ∃ lines, T.mapM (fun r => Gen.data2pdb_line r.atom) = .ok lines ∧
       Ext.text.pdb2sql_init lines tn = (Ext.model Model.textRoundtrip).pdb2sql_init T (Rt.cleanName tn) := by
   obtain ⟨lines, h1, h2⟩ := text_table_eq T h tn
   refine ⟨lines, h1, ?_⟩
-  simp only [Ext.text, Ext.model, h2, hname, Bool.not_true, Bool.false_eq_true, if_false]
+  simp only [Ext.text, Ext.model, h2]
   cases newTable Model.textRoundtrip (Rt.cleanName tn) T <;> rfl
 end Proofs.GenMany
